@@ -127,12 +127,19 @@ func (cx *Connection) Write(p []byte) (n int, err error) {
 // a connection is wrapped by a package that does not support
 // our Connection type (for example, `tls.Server()`).
 func (cx *Connection) Wrap(conn net.Conn) *Connection {
+	buf, offset := cx.buf, cx.offset
+	if offset < len(buf) {
+		// cx still holds prefetched bytes that conn has not read through it yet.
+		// They stay with cx and reach the new connection in order via conn,
+		// so the new connection must start with an empty buffer of its own.
+		buf, offset = nil, 0
+	}
 	return &Connection{
 		Conn:         conn,
 		Context:      cx.Context,
 		Logger:       cx.Logger,
-		buf:          cx.buf,
-		offset:       cx.offset,
+		buf:          buf,
+		offset:       offset,
 		matching:     cx.matching,
 		bytesRead:    cx.bytesRead,
 		bytesWritten: cx.bytesWritten,
